@@ -1723,7 +1723,7 @@ def check_C05(tier, seed):
     fixed += [
         (["(setq mk (let ((n 0)) (lambda () (setq n (+ n 10)) (lambda () (setq n (+ n 1)) n))))", "(setq a (funcall mk))", "(setq b (funcall mk))", "(list (funcall a) (funcall a) (funcall b) (funcall a))"], [None, None, None, '(11 12 21 13)']),
         (["(setq mk (let ((x 1)) (lambda (p) (lambda (x) (list x p)))))", "(funcall (funcall mk 2) 3)", "(let ((p 9)) (funcall (funcall mk 2) 3))"], [None, '(3 2)', '(3 2)']),
-        (["(setq mk (let ((x 1) (y 2)) (lambda () (let ((z (+ x y))) (lambda () (list x y z))))))", "(setq x 10 y 20 z 30)", "(funcall (funcall mk))"], [None, None, '(1 2 3)']),
+        (["(setq mk (let ((x 1) (y 2)) (lambda () (let ((z (+ x y))) (lambda () (list x y z))))))", "(setq x 10) (setq y 20) (setq z 30)", "(funcall (funcall mk))"], [None, None, '(1 2 3)']),
     ]
     # two different symbols with the same print name (an interned variable and the uninterned one a hygienic macro binds),
     # both locally bound where the lambda is created: one cell each
